@@ -600,8 +600,16 @@ func c09One(cs c09Case, o *core.Outcome, g *c09Go) {
 	groups := &c09Groups{numbers: nums, byName: re.GroupNumberFromName, ecma: ecma}
 
 	// the two match sequences -----------------------------------------------------------------
+	t0 := time.Now()
 	rms, rerr := c09Enumerate(re, cs.Input, cs.StartAt)
 	sms, serr := c09Enumerate(re, cs.Input, -1)
+	if time.Since(t0) > 1500*time.Millisecond {
+		// a pattern that needs seconds on this input (exponential backtracking): Replace, ReplaceFunc and Split each
+		// repeat the search under the 5 s MatchTimeout and, on a loaded machine, one of them times out while the other
+		// does not — a difference that says nothing about replacement. Counted, not compared.
+		o.Buckets = append(o.Buckets, "slow-pattern")
+		return
+	}
 	if serr != nil || (rerr != nil && !c09StartAtInvalid(cs)) {
 		e := serr
 		if e == nil {
